@@ -888,6 +888,22 @@ _also("C18", "Also: raw copies into fixed-size arrays inside structs are limited
 _also("C19", "Also: the would-block answer of a polling receive is converted into Empty directly, in one place per layer, on every transport (TRY-CONV).")
 _also("C20", "Also (in-process): stream ids come from a counter that only grows (SET-ID).")
 
+# clauses bound after the seventh seeding round
+_also("C02", "Also: poll_next passes Pending on only where the forwarding channel said Pending (AS-POLL), so the consuming task is woken for every message.")
+_also("C03", "Also: the platform receive error reaches the caller through the ipc error conversion, never by way of io::Error (RECV-CONV); FD-BOUND (a receive that lost its per-message socket waits on, and reports the end of, somebody else's channel).")
+_also("C04", "Also: a transferred receiver that is routed or turned into a stream is served without the router thread waiting on a consumer (RT-FORWARD) and has its route installed in the cycle it was queued in (AS-DRAIN).")
+_also("C06", "Also: dropping a set leaves the poll instance alone (SET-CLOSE drop clause): it is shared with every process forked while the set is alive.")
+_also("C07", "Also: a routed message that fails to decode gives its attachments back to the message (TLS-RESTORE); FD-BOUND (a routed message that lost its per-message socket parks the router thread).")
+_also("C09", "Also: FD-BOUND (a receiving end in transit must not be taken for the carrying message's per-message socket); every ipc-layer send reaches the platform send on every successful path (RESULT-USED send-skipped).")
+_also("C10", "Also: the poll timeout is converted without wrapping (TIMEOUT-ARM), 'empty' never comes from a stale errno (ERRNO-FRESH), and the receive function does not restart in a mode of its own (FOLLOWUP-BLOCKING).")
+_also("C12", "Also: an aborted message does not make the receive start over in blocking mode (FOLLOWUP-BLOCKING restart clause); accept() does not call itself or loop (OSS-SAMEFD).")
+_also("C13", "Also: fragment sizes inside the retry loop are computed from the estimate as it is after the last shrink (RETRY-SHRINK retry-size-stale).")
+_also("C15", "Also: a nested send neither takes the enclosing message's attachments along nor restarts its numbering (TLS-RESTORE).")
+_also("C16", "Also: attachments of an undecoded message are close-on-exec (CLOEXEC): a spawned child does not keep them open.")
+_also("C17", "Also: every stop request is paired with a wake-up on every way it can come about (RT-PAIR), and what the caller handed in is not destroyed while the proxy mutex is held (STOP-FLAG user-value-dropped-under-lock).")
+_also("C19", "Also: every message handed to send is handed to the transport (RESULT-USED send-skipped), receive errors are classified in one place (RECV-CONV), and a dropped receiver's descriptor is closed whatever its number (FD-DROP).")
+_also("C20", "Also: poll_next neither makes Pending up nor closes the forwarding queue (AS-POLL); a receive has no per-message error exit that would end the routing thread (MSG-COMMIT).")
+
 
 # --------------------------------------------------------------------------- registry metadata
 NOT_APPLICABLE = {}
